@@ -1,7 +1,9 @@
 (** C19 (tie A) -- source facts: Block.jacobian copies the caller's saved-Jacobian dict before writing into it; the
-    heterogeneous-agent impulse works on an extracted copy of the steady state. *)
+    heterogeneous-agent impulse works on an extracted copy of the steady state; objects DERIVED from an argument are built afresh: the transpose and
+    the scalar multiple of a sparse Jacobian are new SimpleSparse objects made from the elements (so nothing the operand cached on first use
+    travels with them), translating a result container through a renaming works on a deep copy, and renaming a saved factorisation works on a copy. *)
 From Coq Require Import Bool.
 From SSJ Require Import Gen.BlockFacts Gen.HetFacts.
-Theorem code_facts_C19 : jacobian_copies_Js_before_writing = true /\ impulse_uses_initial_distribution_and_copies_ss = true.
+Theorem code_facts_C19 : jacobian_copies_Js_before_writing = true /\ impulse_uses_initial_distribution_and_copies_ss = true /\ derived_objects_are_fresh = true.
 Proof. repeat split; reflexivity. Qed.
 Print Assumptions code_facts_C19.
